@@ -157,6 +157,7 @@ class Ctx:
     def ensure_makefile(self):
         mk = os.path.join(COQ, "Makefile")
         cp = os.path.join(COQ, "_CoqProject")
+        gen_coqproject()
         if (not os.path.exists(mk)) or os.path.getmtime(mk) < os.path.getmtime(cp):
             subprocess.run(["coq_makefile", "-f", "_CoqProject", "-o", "Makefile"], cwd=COQ, check=True,
                            stdout=subprocess.DEVNULL)
@@ -183,18 +184,53 @@ class Ctx:
             r = subprocess.run(cmd, cwd=COQ, stdout=subprocess.PIPE, stderr=subprocess.STDOUT, text=True)
         return r.returncode == 0, r.stdout
 
-    def hygiene(self):
-        """No Admitted/Axiom/... anywhere in the development (fail-closed)."""
+    def dep_closure(self, props_file):
+        """Transitive .v dependencies of a file inside coq/ (from coq_makefile's .Makefile.d)."""
+        deps = {}
+        try:
+            with open(os.path.join(COQ, ".Makefile.d")) as fh:
+                for line in fh:
+                    if ":" not in line:
+                        continue
+                    lhs, rhs = line.split(":", 1)
+                    tg = [t for t in lhs.split() if t.endswith(".vo")]
+                    ds = [d[:-1] for d in rhs.split() if d.endswith(".vo") and not d.startswith("/")]
+                    for t in tg:
+                        deps[t[:-1]] = ds
+        except OSError:
+            return None
+        if props_file not in deps:
+            return None
+        seen, todo = set(), [props_file]
+        while todo:
+            f = todo.pop()
+            if f in seen:
+                continue
+            seen.add(f)
+            todo.extend(deps.get(f, []))
+        return sorted(seen)
+
+    def hygiene(self, props_file=None):
+        """No Admitted/Axiom/... in any file the property theorems depend on (fail-closed: when the
+        dependency closure is unknown every file of the development is scanned)."""
+        files = self.dep_closure(props_file) if props_file else None
+        if files is None:
+            files = []
+            for root, _d, fs in os.walk(COQ):
+                files += [os.path.relpath(os.path.join(root, fn), COQ) for fn in fs if fn.endswith(".v")]
         bad = []
-        for root, _d, files in os.walk(COQ):
-            for fn in files:
-                if fn.endswith(".v"):
-                    p = os.path.join(root, fn)
-                    with open(p, errors="replace") as fh:
-                        for i, line in enumerate(fh, 1):
-                            code = re.sub(r"\(\*.*?\*\)", "", line)
-                            if FORBIDDEN.search(code):
-                                bad.append("%s:%d: %s" % (os.path.relpath(p, COQ), i, line.strip()))
+        for rel in files:
+            p = os.path.join(COQ, rel)
+            try:
+                fh = open(p, errors="replace")
+            except OSError:
+                continue
+            with fh:
+                for i, line in enumerate(fh, 1):
+                    code = re.sub(r"\(\*.*?\*\)", "", line)
+                    if FORBIDDEN.search(code):
+                        bad.append("%s:%d: %s" % (rel, i, line.strip()))
+        self.notes["hygiene_files"] = len(files)
         return bad
 
     def prove(self, props_file, extra_targets=()):
@@ -205,10 +241,10 @@ class Ctx:
         with open(src) as fh:
             text = fh.read()
         names = re.findall(r"^\s*(?:Theorem|Lemma|Corollary|Example)\s+([A-Za-z0-9_']+)", text, re.M)
-        bad = self.hygiene()
+        ok, log = self.make([vo] + list(extra_targets))
+        bad = self.hygiene(props_file)
         if bad:
             self.break_("hygiene", "\n".join(bad))
-        ok, log = self.make([vo] + list(extra_targets))
         out = ""
         if ok:
             # Re-check the property file itself on every run (cheap: exact + Print Assumptions)
@@ -340,7 +376,28 @@ class Ctx:
         return rc, out
 
     # ---------------------------------------------------------------- implementation
+    def prepare_impl(self):
+        """Make sure the binaries the implementation runs reflect /repo's working tree: shadow-build
+        the C/C++ extensions the property module names in EXTS when their sources changed, and
+        report .pyx sources that no buildable binary reflects."""
+        import build_ext
+        exts = list(getattr(self.module, "EXTS", []))
+        self.shadow_path = None
+        if not exts:
+            return
+        try:
+            self.shadow_path = build_ext.shadow_tree(REPO, exts, self.tmp)
+        except Exception as e:
+            self.break_("build:%s" % ",".join(exts), str(e))
+        drift = build_ext.pyx_drift(REPO, exts)
+        if drift:
+            self.break_("pyx-drift", "code of %s changed but Cython is not available: no buildable binary "
+                                     "reflects the source" % drift)
+        self.notes.setdefault("coverage_extra", {})["shadow_build"] = bool(self.shadow_path)
+
     def run_impl(self, script, payload, timeout=1800, env=None, shadow=None):
+        if shadow is None:
+            shadow = getattr(self, "shadow_path", None)
         """Run harness/impl/<script> in /venv python against /repo (or a shadow tree) with a JSON
         payload on stdin; returns parsed JSON from stdout's last line."""
         p = os.path.join(VERIF, "harness", "impl", script)
@@ -439,12 +496,39 @@ class Ctx:
         shutil.rmtree(self.tmp, ignore_errors=True)
 
 
+def gen_coqproject():
+    """_CoqProject lists every .v file under coq/ (sorted); rewritten only when the set changes."""
+    files = []
+    for root, _d, fs in os.walk(COQ):
+        for fn in fs:
+            if fn.endswith(".v") and not fn.startswith("."):
+                files.append(os.path.relpath(os.path.join(root, fn), COQ))
+    text = "-Q . MD\n-arg -w -arg -notation-overridden,-deprecated-hint-without-locality,-ambiguous-paths\n" + "\n".join(sorted(files)) + "\n"
+    p = os.path.join(COQ, "_CoqProject")
+    old = open(p).read() if os.path.exists(p) else None
+    if old != text:
+        with open(p, "w") as fh:
+            fh.write(text)
+
+
 def load_known():
-    p = os.path.join(VERIF, "KNOWN_FINDINGS.json")
-    if not os.path.exists(p):
-        return []
-    with open(p) as fh:
-        return json.load(fh).get("findings", [])
+    """KNOWN_FINDINGS.json (the committed list) plus per-property fragments known_findings/*.json
+    (same schema; merged into the single file by tools/merge_known.py)."""
+    out = []
+    seen = set()
+    paths = [os.path.join(VERIF, "KNOWN_FINDINGS.json")]
+    fd = os.path.join(VERIF, "known_findings")
+    if os.path.isdir(fd):
+        paths += [os.path.join(fd, f) for f in sorted(os.listdir(fd)) if f.endswith(".json")]
+    for p in paths:
+        if not os.path.exists(p):
+            continue
+        with open(p) as fh:
+            for k in json.load(fh).get("findings", []):
+                if k["id"] not in seen:
+                    seen.add(k["id"])
+                    out.append(k)
+    return out
 
 
 def _m1(val, cond):
